@@ -2,7 +2,7 @@
    recorded guards: so whenever a run finds [agree] (implementation = model) on a
    case, the theorems transfer to the implementation's behaviour on that case. *)
 From Boltons Require Import Lib.Prelude Lib.C16_Text Spec.C16_Spec Model.C16_Model Gen.C16_Gen
-  Check.C16_Check Proofs.C16_Text Proofs.C16_Regex Proofs.C16_Parse Proofs.C16_Fold Proofs.C16_Format Proofs.C16_Main.
+  Check.C16_Check Proofs.C16_Text Proofs.C16_Regex Proofs.C16_Parse Proofs.C16_Fold Proofs.C16_FoldM Proofs.C16_Format Proofs.C16_Main.
 Open Scope N_scope.
 
 Lemma frame_eqb_refl f : frame_eqb f f = true.
@@ -37,35 +37,18 @@ Qed.
 
 (* ---- round-trip cases ------------------------------------------------------------------------- *)
 Theorem rt_sound T ms :
-  long_repeat (t_frames T) = false -> length ms = length (t_frames T) ->
-  rt_verdict T ms (marked_text T ms)
-             (fst (model_parse_print (marked_text T ms))) (snd (model_parse_print (marked_text T ms)))
+  length ms = length (t_frames T) ->
+  rt_verdict T ms (real_text T ms)
+             (fst (model_parse_print (real_text T ms))) (snd (model_parse_print (real_text T ms)))
   = (true, true, false).
 Proof.
-  intros Hr Hl. unfold rt_verdict.
-  destruct (model_parse_print (marked_text T ms)) as [mp ms'] eqn:E. cbn [fst snd].
-  rewrite rtb_eqb_refl, rstr_eqb_refl. unfold rt_input_ok. rewrite Hr, str_eqb_refl, Hl, N.eqb_refl.
+  intros Hl. unfold rt_verdict.
+  destruct (model_parse_print (real_text T ms)) as [mp ms'] eqn:E. cbn [fst snd].
+  rewrite rtb_eqb_refl, rstr_eqb_refl. unfold rt_input_ok. rewrite str_eqb_refl, Hl, N.eqb_refl.
   cbn [andb].
   destruct (wf P T && markers_ok ms && src_consistent (t_frames T)) eqn:W; [|reflexivity].
   apply andb_true_iff in W as [W W3]. apply andb_true_iff in W as [W1 W2].
-  unfold model_parse_print in E. rewrite (parse_render P py_cc_ok T ms W1 W2 Hl) in E.
-  rewrite (to_string_std T (wf_funcs P T W1)) in E. injection E as <- <-.
-  rewrite rtb_eqb_refl, rstr_eqb_refl. reflexivity.
-Qed.
-
-(* the same for the interpreter's folded rendering of a recursive traceback *)
-Theorem rt_sound_folded T ms :
-  long_repeat (t_frames T) = true ->
-  rt_verdict T ms (std_text T) (fst (model_parse_print (std_text T))) (snd (model_parse_print (std_text T)))
-  = (true, true, false).
-Proof.
-  intros Hr. unfold rt_verdict.
-  destruct (model_parse_print (std_text T)) as [mp ms'] eqn:E. cbn [fst snd].
-  rewrite rtb_eqb_refl, rstr_eqb_refl. unfold rt_input_ok. rewrite Hr, str_eqb_refl.
-  cbn [andb].
-  destruct (wf P T && markers_ok ms && src_consistent (t_frames T)) eqn:W; [|reflexivity].
-  apply andb_true_iff in W as [W W3]. apply andb_true_iff in W as [W1 W2].
-  unfold model_parse_print in E. rewrite (parse_std P py_cc_ok T W1 W3) in E.
+  unfold model_parse_print in E. rewrite (parse_real P py_cc_ok T ms W1 W2 Hl W3) in E.
   rewrite (to_string_std T (wf_funcs P T W1)) in E. injection E as <- <-.
   rewrite rtb_eqb_refl, rstr_eqb_refl. reflexivity.
 Qed.
